@@ -111,14 +111,16 @@ def addGenesisVal (s : App) (g : GVal) : App :=
   let s := { s with bonded := s.bonded + (g.tokens : Int), supply := s.supply + (g.tokens : Int) }
   s.setInfo v.key { start := 0, idx := 0, missed := 0, jailedUntil := tEpoch, tomb := false }
 
+/-- the state x/staking's InitGenesis builds before its first `ApplyAndReturnValidatorSetUpdates` -/
+def genesisState (g : Genesis) : App :=
+  g.vals.foldl addGenesisVal { emptyApp with
+    params := { unbond := g.unbond, maxVals := g.maxVals, maxEntries := 7, hist := 10000, denom := 0, minComm := g.minComm },
+    window := g.window, minSigned := g.minSigned, jailNs := g.jailNs, slashDown := g.slashDown }
+
 /-- InitChain: x/staking InitGenesis (bonded validators with self-delegations, then the first
     `ApplyAndReturnValidatorSetUpdates`), x/slashing signing infos, x/poa caches -/
 def initChain (g : Genesis) : Except Halt (List (Nat × Int) × App) :=
-  let s := { emptyApp with
-    params := { unbond := g.unbond, maxVals := g.maxVals, maxEntries := 7, hist := 10000, denom := 0, minComm := g.minComm },
-    window := g.window, minSigned := g.minSigned, jailNs := g.jailNs, slashDown := g.slashDown }
-  let s := g.vals.foldl addGenesisVal s
-  match s.applyUpdates with
+  match (genesisState g).applyUpdates with
   | .error h => .error h
   | .ok (ups, s) =>
     if s.lastTotal < 0 then .error .panic
